@@ -104,6 +104,8 @@ class Assembler:
         self.assumed = []             # (path, sha) of real functions used through an assumed contract
         self.obligations = []         # names, in order
         self.proved_elsewhere = []    # callee contracts proved in another unit
+        self.dropped_closure_contracts = []
+        self.moot = []                # obligation names of dropped optional closure contracts
         self.in_assumed = False
 
     def src(self, rel):
@@ -619,9 +621,25 @@ class Assembler:
         closures = fp.closures()
         for cl in spec.get('closure', []):
             kidx = cl['k']
-            if kidx >= len(closures):
-                raise ExtractError('lost anchor: closure %d of fn %s (has %d)' % (kidx, fnname, len(closures)))
-            ka, kb = closures[kidx]
+            cands = closures
+            if 'after' in cl:
+                # the k-th closure that starts after a landmark (e.g. the constructor call whose result the closure
+                # post-processes): ordinals are then local to the landmark, so deleting closures elsewhere does not shift them.
+                # `optional = true`: if the landmark itself is gone, the contract is moot and is dropped (recorded); whatever
+                # the code does instead is judged by the enclosing function's own postconditions
+                try:
+                    _k0, k1 = fp.find_stmt(cl['after'], cl.get('n', 0))
+                except ExtractError:
+                    if cl.get('optional'):
+                        self.dropped_closure_contracts.append('%s: closure contract after `%s` (landmark absent)' % (fnname, cl['after']))
+                        for x_ in list(cl.get('requires', [])) + list(cl.get('ensures', [])):
+                            self.moot.append(split_clause(x_)[0])
+                        continue
+                    raise
+                cands = [c for c in closures if c[0] > k1]
+            if kidx >= len(cands):
+                raise ExtractError('lost anchor: closure %d of fn %s (has %d)' % (kidx, fnname, len(cands)))
+            ka, kb = cands[kidx]
             txt = ' -> (%s)' % cl['ret'] if cl.get('ret') else ''
             # `$0`, `$1`, .. in a closure contract stand for the closure's parameter names (robust to renames)
             pnames, d, want = [], 0, True
@@ -690,7 +708,17 @@ class Assembler:
             if 'let' in ab:
                 # `let = "name"`: the whole initializer of `let name = <expr>;` (the replaced text is pinned by its hash in
                 # the ledger like every assumed contract, so an edit inside it is undecided, never silently ignored)
-                k0, k1 = fp.find_stmt('let %s =' % ab['let'], ab.get('n', 0))
+                k0, k1 = fp.find_stmt('let %s' % ab['let'], ab.get('n', 0))
+                k1 += 1
+                d_ = 0
+                while k1 < fp.k_body_close and not (d_ == 0 and s.is_p(k1, '=')):    # an optional `: Type` before the `=`
+                    if s.kind(k1) == 'p' and s.s(k1) in '<([':
+                        d_ += 1
+                    elif s.kind(k1) == 'p' and s.s(k1) in '>)]':
+                        d_ -= 1
+                    elif s.is_p(k1, ';'):
+                        raise ExtractError('lost anchor: `let %s` in fn %s has no initializer' % (ab['let'], fnname))
+                    k1 += 1
                 ka = k1 + 1
                 kb = fp.stmt_end(ka) - 1
                 if kb < ka or not s.is_p(kb + 1, ';'):
@@ -805,6 +833,11 @@ class Assembler:
                     impl_seg = sg.strip()
             in_trait_impl = bool(impl_seg and (re.search(r'\bfor\b', impl_seg) or impl_seg.startswith('trait')))
             key = (spec['file'], impl_seg) if impl_seg else None
+            if spec.get('hoist_as'):
+                # 20: an associated const hoisted to a free const under a new name (Verus panics -- vir/poly.rs -- on an
+                # associated const of a lifetime-generic type); the text after the name is the real item's, and uses of it are
+                # redirected by an expression abstraction `Self::NAME` -> the new name
+                key = None
             if key != cur_impl:
                 if cur_impl is not None:
                     parts.append('}\n')
@@ -911,6 +944,11 @@ class Assembler:
             if item.kind == 'fn' and spec.get('lift'):
                 text = self.lift_closure(s, item, ed, spec, fnname, self.canary == idx)
             else:
+                if spec.get('hoist_as'):
+                    if item.kind != 'const':
+                        raise ExtractError('lost anchor: %s is not a const' % fnname)
+                    ed.replace(s.t[item.k_kw + 1][1], s.t[item.k_kw + 1][2], spec['hoist_as'])
+                    self.fired.add('20:hoist-associated-const')
                 text = ed.apply(s.text, item.start, item.end)
             text = re.sub(r'\n[ \t]*\n([ \t]*\n)+', '\n\n', text)
             parts.append('// @fn %s  [%s]\n' % (fnname, spec['file']))
@@ -952,7 +990,8 @@ class Assembler:
             scan[pat] = len(re.findall(re.escape(pat), text))
         return {'ob_lines': ob_lines, 'fn_ranges': fn_ranges, 'assumption_scan': scan,
                 'transformations': sorted(self.fired), 'functions': self.functions,
-                'assumed': self.assumed, 'obligations': self.obligations, 'proved_elsewhere': self.proved_elsewhere}
+                'assumed': self.assumed, 'obligations': self.obligations, 'proved_elsewhere': self.proved_elsewhere,
+                'moot': self.moot, 'dropped_closure_contracts': self.dropped_closure_contracts}
 
 
 def assemble(unit_path, repo, canary=None):
